@@ -1,0 +1,91 @@
+//go:build verif
+
+package net
+
+// Contracts for the message sender (property C11). Comment-only.
+
+/*@
+guarded_by peerMessageSender.lk : peerMessageSender.s, peerMessageSender.r, peerMessageSender.invalid, peerMessageSender.singleMes
+guarded_by messageSenderImpl.smlk : messageSenderImpl.strmap
+immutable "context.Canceled"
+immutable "github.com/libp2p/go-libp2p-kad-dht/internal/net.ErrReadTimeout"
+
+func (ms *peerMessageSender) invalidate()
+  props C11
+  holds ms.lk
+  ghostvar $reset bool = false
+  modifies ms.invalid, ms.s
+  ensures [retired-for-good] ms.invalid && ms.s == nil
+  ensures [internal-stream-reset] imp(old(ms.s) != nil, $reset)
+  ghost at call(Reset): $reset = true; assert($recv == old(ms.s))
+
+func (ms *peerMessageSender) prep(ctx context.Context) error
+  props C11
+  holds ms.lk
+  modifies ms.s, ms.r
+  ensures [usable] imp(result == nil, ms.s != nil && !ms.invalid)
+  ensures [invalid-never-reopens] imp(ms.invalid, result != nil && ms.s == old(ms.s))
+  ensures [failure-opens-nothing] imp(result != nil, ms.s == old(ms.s))
+  ensures [reuses] imp(old(ms.s) != nil && !ms.invalid, result == nil && ms.s == old(ms.s))
+
+func (ms *peerMessageSender) prepOrInvalidate(ctx context.Context) error
+  props C11
+  modifies *
+  ghost at before call(prep): assert(held(ms.lk))
+  ghost at before call(invalidate): assert(held(ms.lk))
+
+# One exchange: after any failure that followed a write, the stream used was
+# reset and dropped (never reused); the reply returned is the message read
+# right after this call's write; at most one retry, none after cancellation.
+func (ms *peerMessageSender) SendRequest(ctx context.Context, pmes *pb.Message) (*pb.Message, error)
+  props C11
+  ghostvar $wrote bool = false
+  ghostvar $reset bool = false
+  ghostvar $iters int = 0
+  ghostvar $rerr error = nil
+  ghostvar $mes *pb.Message = nil
+  ghostvar $cancelSeen bool = false
+  modifies *
+  ensures [internal-reset-not-reuse] imp(result1 != nil && $wrote, $reset && ms.s == nil)
+  ensures [internal-reply-follows-own-write] imp(result1 == nil, $wrote && $rerr == nil && result0 == $mes && result0 != nil)
+  ensures [internal-single-retry] $iters <= 2
+  loop 0 invariant held(ms.lk) && $iters == ite(retry, 1, 0) && !$cancelSeen && imp(!retry, !$wrote) && imp($wrote && retry, $reset && ms.s == nil)
+  ghost at before call(prep): assert(!$cancelSeen)
+  ghost at call(prep): $iters = $iters + 1
+  ghost at before call(writeMsg): assert(ms.s != nil && !ms.invalid)
+  ghost at call(writeMsg): $wrote = true; $reset = false
+  ghost at call(Reset): $reset = true
+  ghost at call(Close): $reset = true
+  ghost at before call(ctxReadMsg): $mes = $arg1
+  ghost at call(ctxReadMsg): $rerr = $ret0; $cancelSeen = ($ret0 == context.Canceled)
+
+func (ms *peerMessageSender) SendMessage(ctx context.Context, pmes *pb.Message) error
+  props C11
+  ghostvar $wrote bool = false
+  ghostvar $reset bool = false
+  ghostvar $iters int = 0
+  ghostvar $werr error = nil
+  modifies *
+  ensures [internal-reset-not-reuse] imp($werr != nil, $reset && ms.s == nil)
+  ensures [internal-single-retry] $iters <= 2
+  loop 0 invariant held(ms.lk) && $iters == ite(retry, 1, 0) && imp(!retry, !$wrote && $werr == nil) && imp(retry, $wrote && $reset && ms.s == nil)
+  ghost at call(prep): $iters = $iters + 1
+  ghost at before call(writeMsg): assert(ms.s != nil && !ms.invalid)
+  ghost at call(writeMsg): $wrote = true; $reset = false; $werr = $ret0
+  ghost at call(Reset): $reset = true
+  ghost at call(Close): $reset = true
+
+func (m *messageSenderImpl) OnDisconnect(ctx context.Context, p peer.ID)
+  props C11
+  modifies *
+  ghost at go(func): assert(!has(m.strmap, p) && held(m.smlk))
+
+funclit 0 in (m *messageSenderImpl) OnDisconnect(ctx context.Context, p peer.ID)
+  props C11
+  ghost at before call(invalidate): assert(held(ms.lk))
+
+func (ms *peerMessageSender) ctxReadMsg(ctx context.Context, mes *pb.Message) error
+  props C11 C10
+  holds ms.lk
+  modifies *
+@*/
